@@ -216,7 +216,14 @@ func TestC26(t *testing.T) {
 			}
 			rt.Fatalf("C26 violated (%s) for type %s\n  %s\n  values: %s, %s, %s", v.law, tc.name, v.text, show(vals[0]), show(vals[1]), show(vals[2]))
 		}
+		if tc.family == "json" && kf.Listed(kfJSONBigFloat) && jsonBigFloatRegion(rawTexts(raws)) {
+			st.Excluded(kfJSONBigFloat) // searched again once the finding is repaired / unlisted
+			return
+		}
 		if v := checkLaws(ctx, tc, vals); v != nil {
+			if v.id == "" {
+				v.id = lawSignature(tc, v.law, raws)
+			}
 			fail(v)
 			return
 		}
